@@ -20,7 +20,17 @@ var (
 	zzErrWrite = errors.New("zz write error")
 )
 
-func zzJSONMarshal(obj any) ([]byte, error) { return vJSON(obj), nil }
+// zzJSONMarshal: the JSON encoder as an uninterpreted token — which, like the real one, can refuse a value
+// (NaN, a channel, a failing MarshalJSON): harnesses that pass caller-supplied params set zzMarshalMayFail.
+var zzMarshalMayFail, zzMarshalFailed bool
+
+func zzJSONMarshal(obj any) ([]byte, error) {
+	if zzMarshalMayFail && obj != nil && vBool("paramsNotEncodable") {
+		zzMarshalFailed = true
+		return nil, errors.New("json: unsupported value: NaN")
+	}
+	return vJSON(obj), nil
+}
 
 type zzCloser struct {
 	g     *zzG
@@ -476,12 +486,18 @@ func zzConnCall() {
 	ctx, cancel := context.WithCancel(context.Background())
 	g.cancelCallerCtx = cancel
 	g.callerCtx = ctx
-	ac := g.c.Call(ctx, "m", nil)
+	zzMarshalMayFail, zzMarshalFailed = true, false
+	ac := g.c.Call(ctx, "m", "caller-supplied params")
+	zzMarshalMayFail = false
 	vAssert(ac != nil, "C01.call-returns-handle")
 	if !g.mineReg {
 		// never registered: the handle is still private to this thread; the connection refused the call
 		vAssert(len(g.w.msgs) == 0, "C01.unregistered-call-not-written")
-		vAssert(vIsClosed(ac.ready) && ac.response.ID == ac.id && errors.Is(ac.response.Error, ErrClientClosing), "C01.refused-call-reports-closing")
+		// ... or its params could not be encoded; either way it is completed at once, under its own id, with an error
+		vAssert(vIsClosed(ac.ready) && ac.response.ID == ac.id && ac.response.Error != nil, "C01.unsent-call-completed-with-error")
+		if !zzMarshalFailed {
+			vAssert(errors.Is(ac.response.Error, ErrClientClosing), "C01.refused-call-reports-closing")
+		}
 		vReach("refused")
 	} else {
 		vAssert(g.mine == ac, "C01.handle-is-the-registered-call")
@@ -823,7 +839,9 @@ func zzConnNotify() {
 	ctx, cancel := context.WithCancel(context.Background())
 	g.cancelCallerCtx = cancel
 	g.callerCtx = ctx
-	err := g.c.Notify(ctx, "notifications/cancelled", nil)
+	zzMarshalMayFail = true
+	err := g.c.Notify(ctx, "notifications/progress", "caller-supplied params")
+	zzMarshalMayFail = false
 	vAssert(g.myNotif == 0, "C05.notification-token-returned")
 	if len(g.w.msgs) == 0 {
 		vAssert(err != nil, "C05.refused-notify-reports-error")
